@@ -15,13 +15,20 @@ def prop(pid, tracemod, rule):
     return deco
 
 
+EXTRA_TRACE = {"GROW": "GrowthTrace"}      # pipelines outside the twenty properties (lib/growth.py)
+
+
+def tracemod_of(pid):
+    return PROPS[pid]["trace"] if pid in PROPS else EXTRA_TRACE[pid]
+
+
 def judge(ctx, pid, vectors, what="", exec_prop=None, reverse=False, **kw):
     """vectors -> real code -> trace -> TLC verdicts, folded into ctx.
     reverse=True: the same vectors are also executed in reverse order in a fresh process - whatever the library
     remembers from earlier calls (caches keyed too coarsely, pooled state) then meets the inputs in another order."""
     trace = ctx.fresh("trace") + ".ndjson"
     hexec(ctx, exec_prop or pid, vectors, trace)
-    mod = PROPS[pid]["trace"]
+    mod = tracemod_of(pid)
     verdicts = validate(ctx, mod + ".tla", mod + ".cfg", trace, what=what, **kw)
     absorb(ctx, trace, verdicts)
     ctx.trace_src[os.path.basename(trace)] = (vectors, exec_prop or pid)
@@ -55,7 +62,7 @@ def _judge_one_line(ctx, pid, trace, line_no):
             f.write(json.dumps(rec) + "\n")
         else:
             f.write(lines[line_no - 1])
-    mod = PROPS[pid]["trace"]
+    mod = tracemod_of(pid)
     verdicts = validate(ctx, mod + ".tla", mod + ".cfg", one, workers=2, heap_gb=2, what="replay")
     return any(not v[0] for v in verdicts.values())
 
@@ -70,7 +77,7 @@ def confirm(ctx, viol):
     vf.write_vectors(vec, [viol["vector"]])
     trace = ctx.fresh("replaytrace") + ".ndjson"
     hexec(ctx, ctx.prop, vec, trace)
-    mod = PROPS[ctx.prop]["trace"]
+    mod = tracemod_of(ctx.prop)
     verdicts = validate(ctx, mod + ".tla", mod + ".cfg", trace, workers=2, heap_gb=2, what="replay")
     if any(not v[0] for v in verdicts.values()):
         return True
